@@ -14,6 +14,9 @@ ROOT = os.path.dirname(os.path.dirname(os.path.abspath(__file__)))
 REPO = os.environ.get("VERIF_REPO", "/repo")
 BUILD = os.path.join(ROOT, ".build") if REPO == "/repo" else os.path.join(
     ROOT, ".build", "alt-" + hashlib.sha1(REPO.encode()).hexdigest()[:10])
+# replays and evidence of a run against a scratch copy (VERIF_REPO set) stay in that run's private build directory:
+# the committed evidence describes /repo only
+OUT = ROOT if REPO == "/repo" else BUILD
 COQ = os.path.join(ROOT, "coq")
 # with VERIF_REPO set, a private copy of the Coq tree is used so that Gen/*.v of /repo is not disturbed
 COQ_WORK = COQ if REPO == "/repo" else os.path.join(BUILD, "coq")
